@@ -50,7 +50,11 @@ fn names(variant: usize) -> Vec<&'static str> {
     match variant {
         0 => vec!["variable", "number", "comment", "keyword", "function", "operator", "definition.var", "definition.param", "text", "tag", "arith.number", "arith.var", "arith.operator", "arith.function"],
         1 => vec!["variable", "number", "comment", "keyword", "function", "operator", "text", "tag", "arith.number", "arith.var"],
-        _ => vec!["keyword", "tag", "arith"],
+        2 => vec!["keyword", "tag", "arith"],
+        // one kind of definition is not recognised: such a definition carries no highlight, and a reference that resolves to
+        // it keeps its own highlight even when a highlighted definition of the same name is visible further out
+        3 => vec!["variable", "number", "comment", "keyword", "function", "operator", "definition.param", "text", "tag", "arith.number", "arith.var", "arith.operator", "arith.function"],
+        _ => vec!["variable", "number", "comment", "keyword", "function", "operator", "definition.var", "text", "tag", "arith.number", "arith.var", "arith.operator", "arith.function"],
     }
 }
 
@@ -164,16 +168,16 @@ fn check_source(cfg: &Cfg, hl: &mut Highlighter, parent_lang: &tree_sitter::Lang
     if any { res.nontrivial += 1; }
     res.outcome(events.len() as u64);
     // locals: a reference resolved to an earlier definition in an enclosing scope is highlighted like the definition
-    if cfg.name == "stmts" && variant == 0 && !xt.has_error_or_missing() {
+    if cfg.name == "stmts" && (variant == 0 || variant >= 3) && !xt.has_error_or_missing() {
         let idx_of = |n: &str| cfg.names.iter().position(|x| *x == n);
         // definitions in document order: (scope node index or root, name text, start, highlight)
         let scope_of = |i: usize| -> usize { let mut p = xt.nodes[i].parent; while let Some(q) = p { if kind(q) == "block" || kind(q) == "fn_def" { return q; } p = xt.nodes[q].parent; } 0 };
-        let mut defs: Vec<(usize, &[u8], usize, usize)> = vec![];
+        let mut defs: Vec<(usize, &[u8], usize, Option<usize>)> = vec![];
         for i in 0..xt.nodes.len() {
             let n = &xt.nodes[i];
             let is_let_name = kind(i) == "name";
             let is_param = kind(i) == "identifier" && n.parent.map(|p| kind(p) == "params").unwrap_or(false);
-            if is_let_name || is_param { defs.push((scope_of(i), &src[n.start..n.end], n.start, idx_of(if is_let_name { "definition.var" } else { "definition.param" }).unwrap())); }
+            if is_let_name || is_param { defs.push((scope_of(i), &src[n.start..n.end], n.start, idx_of(if is_let_name { "definition.var" } else { "definition.param" }))); }
         }
         for i in 0..xt.nodes.len() {
             let n = &xt.nodes[i];
@@ -187,7 +191,8 @@ fn check_source(cfg: &Cfg, hl: &mut Highlighter, parent_lang: &tree_sitter::Lang
             let name = &src[n.start..n.end];
             let mut resolved = None;
             for s in scopes { if let Some(d) = defs.iter().rev().find(|d| d.0 == s && d.1 == name && d.2 < n.start) { resolved = Some(d.3); break; } }
-            if let Some(want) = resolved {
+            // a definition whose highlight name is not recognised has no highlight: the reference then keeps its own
+            if let Some(want) = resolved.map(|w: Option<usize>| w.or(idx_of("variable")).unwrap()) {
                 // a function-position identifier keeps competing highlights; only plain variables are asserted
                 let plain = !n.parent.map(|p| (kind(p) == "call" && xt.nodes[p].children.first() == Some(&i)) || kind(p) == "fn_def").unwrap_or(false);
                 if plain && top_at[n.start] != Some(want) { fail(res, "local-reference-not-highlighted-like-definition", format!("identifier at {}..{} resolves to a definition highlighted {:?} but carries {:?}", n.start, n.end, cfg.names.get(want), top_at[n.start].and_then(|h| cfg.names.get(h)))); }
@@ -309,7 +314,7 @@ pub fn worker(ctx: &Ctx, res: &mut ShardResult) {
     let mut idx = 0usize;
     let mut hl = Highlighter::new();
     let inj_variants = INJ_VARIANTS;
-    for variant in 0..3usize {
+    for variant in 0..5usize {
         let nm = names(variant);
         let mut cfgs: Vec<(Cfg, tree_sitter::Language, Vec<Vec<u8>>)> = vec![];
         let mut main = HighlightConfiguration::new(stmts.language.clone(), "stmts", STMTS_HL, "", STMTS_LOCALS).expect("stmts highlight config");
@@ -318,6 +323,7 @@ pub fn worker(ctx: &Ctx, res: &mut ShardResult) {
         docs.extend(byte_atom_strings(4));
         cfgs.push((Cfg { name: "stmts", main, injected: None, names: nm.clone() }, stmts.language.clone(), docs));
         for (vi, inj) in inj_variants.iter().enumerate() {
+            if variant >= 3 { break; } // the definition-name variants concern the stmts configuration only
             let mut main = HighlightConfiguration::new(tmpl.language.clone(), "tmpl", TMPL_HL, inj, "").expect("tmpl highlight config");
             main.configure(&nm);
             let mut a = HighlightConfiguration::new(arith.language.clone(), "arith", ARITH_HL, "", "").expect("arith highlight config");
@@ -337,6 +343,7 @@ pub fn worker(ctx: &Ctx, res: &mut ShardResult) {
             if res.samples.len() < 2 { res.sample(case_json(cfg.name, variant, &docs[docs.len() / 3])); }
             if ctx.out_of_time() { res.caps.push("wall-clock budget reached".into()); return; }
         }
+        if variant >= 3 { continue; }
         let nested = make_nested(variant, &stmts.language, &arith.language, &tmpl.language);
         for d in nested_docs(if ctx.mini() { 2 } else if ctx.quick() { 4 } else { 5 }) {
             idx += 1;
